@@ -139,7 +139,8 @@ Record mst := mkm {
   m_disk : disk;
   m_cache : list centry;
   m_x : xst;                       (* bug / extra directory counts persist across passes *)
-  m_sch : sched
+  m_sch : sched;
+  m_start : option N               (* --start-with-pass: key of the pass that opens the gate *)
 }.
 
 Record pres_run := mkpr {
@@ -185,13 +186,22 @@ Fixpoint ins_desc (d:disk) (f:nat) (l:list nat) : list nat :=
 Definition sorted_files (d:disk) : list nat :=
   fold_left (fun acc f => ins_desc d f acc) (seq 0 (length d)) [].
 
-Definition run_pass (rc:rcfg) (p:pass) (m:mst) : pres_run :=
+Definition run_pass_open (rc:rcfg) (p:pass) (m:mst) : pres_run :=
   let d := m_disk m in
   if Z.eqb (total_size d) 0 then mkpr m 0 0 0 FZero []
   else
     let x0 := m_x m in
     let '(d', cache', r) := files rc p (sorted_files d) d (m_cache m) x0 0 0 (m_sch m) [] in
-    mkpr (mkm d' cache' (f_x r) (f_sch r)) (f_worked r) (x_failed (f_x r) - x_failed x0) (f_exec r) (f_exit r) (f_acc r).
+    mkpr (mkm d' cache' (f_x r) (f_sch r) None) (f_worked r) (x_failed (f_x r) - x_failed x0) (f_exec r) (f_exit r) (f_acc r).
+
+(* the start_with_pass gate: earlier passes return at once; the named pass opens the gate *)
+Definition run_pass (rc:rcfg) (p:pass) (m:mst) : pres_run :=
+  match m_start m with
+  | Some k => if N.eqb k (p_key p)
+              then run_pass_open rc p (mkm (m_disk m) (m_cache m) (m_x m) (m_sch m) None)
+              else mkpr m 0 0 0 FNormal []
+  | None => run_pass_open rc p m
+  end.
 
 (* CVise.reduce: sanity check, first / main (while size decreases) / last *)
 Fixpoint run_list (rc:rcfg) (ps:list pass) (m:mst) (acc:list disk) : mst * fexit * list disk :=
